@@ -15,6 +15,7 @@ use crate::util::J;
 pub mod tmodel;
 pub mod kmodel;
 pub mod pmodel;
+pub mod qmodel;
 
 /// rough upper bound variants
 #[derive(Clone, Copy, Debug, PartialEq, Eq, Hash)]
